@@ -4,30 +4,47 @@
     Server.put as the input [re_fits] (tied to the real load_model() by the correspondence: every restore_placement
     call of every generated history).  Master/RestoreSched.v (+ RestoreSchedP.v): the same function on top of the scheduler model, where
     Server.restore / Server.put ARE Sched/Tree.v [srv_restore] / [srv_put] (tied by E-cell) evaluated on the cell as it
-    is when the node's turn comes.  Master/Publish.v [dedup_writes]: the duplicate pass of restore_placements.
+    is when the node's turn comes - and, as in Python, without looking at app.server ([clear_server]: an instance already
+    restored under an earlier server is restored under this one as well).  Master/RestoreAll.v (+ RestoreAllP.v,
+    RestoreDupP.v): Loader.restore_placements - the loop of restore_placement over Loader.servers with what [integrity]
+    collects, and the duplicate pass, in memory ([dedup_cell]: Server.remove) and in the store (Master/Publish.v
+    [dedup_writes]).
 
-    PROVED (all cells, all node contents, all creation times, no bound):
+    PROVED (all cells, all server lists, all node contents, all creation times, no bound):
       C11_reload_one_server           after ALL nodes of a server have been processed, every node that was healthy when
                                       its turn came (instance scheduled, presence node not younger than the placement
                                       node, Server.restore accepts it on the cell as it then is: capacity left,
                                       partition label, traits, affinity limit) is placed on THAT server with the
                                       RECORDED expiry and the RECORDED identity
+      C11_reload_one_server_again     the same for an instance that already names a server
       C11_reload_touches_nothing_else an instance without a node under the server is exactly as before: in particular
                                       nothing unrecorded gets placed
+      C11_reload_all_servers          the composition over Loader.servers: (a) a healthy node whose instance is recorded
+                                      under no other server is, after ALL servers, on its server with the recorded expiry
+                                      and identity, and the only server integrity lists for it; (b) an instance recorded
+                                      nowhere is untouched; (c) integrity lists exactly the restored nodes
+      C11_reload_all_servers_later, C11_restore_all_is_fold, C11_restored_names_companion
+      C11_restore_placements_healthy, C11_restore_placements_nothing_unrecorded   (a), (b) through the duplicate pass
+      C11_duplicate_removed_from_both, C11_duplicate_healthy_removed_from_both
+                                      an instance recorded under two servers and restored under both: integrity lists
+                                      both, afterwards it is on NO server, neither server lists it, both nodes deleted
+      C11_reload_accounting           after restore_placements every server's free capacity = capacity - demands of the
+                                      instances it still lists, and its affinity counters are the true counts
+      C11_remove_all_idle             the remove_all() opening restore_placement is idle during load_model
       C11_healthy_restored_verbatim, C11_restore_never_invents, C11_nothing_unrecorded,
       C11_rebooted_server_not_verbatim   the decision table
-      C11_duplicates_dropped          an instance restored under two servers is removed from both
-    PARTIAL / ORACLE + CORRESPONDENCE ONLY:
-      - the composition over Loader.servers (restore_placements calls restore_placement per server; by
-        C11_reload_touches_nothing_else servers only interact through instances recorded under two of them, which the
-        duplicate pass removes) and load_model's earlier steps (load_servers, load_apps, load_identity_groups) are
-        exercised on the real Master by harness/props/c11.py, not modelled;
-      - "healthy" in the theorem is evaluated at the node's turn; the oracle uses the order-independent reading
+      C11_duplicates_dropped, C11_reload_all_then_dedup   the store after the duplicate pass
+    ORACLE + CORRESPONDENCE ONLY:
+      - load_model's earlier steps (load_servers, load_apps, load_identity_groups, ...) are exercised on the real Master
+        by harness/props/c11.py, not modelled: the theorems start from the cell those steps built;
+      - "healthy" in the theorems is evaluated at the node's turn; the oracle uses the order-independent reading
         (all recorded instances of the server fit together) and skips over-committed servers. *)
 From Coq Require Import ZArith List Bool.
 From Coq Require Import QArith.
 From TM Require Import Sched.Vec Sched.Types Sched.Queue Sched.Tree Sched.Cycle Sched.Events.
+From TM Require Import Sched.MapsP Sched.InvAcct Sched.InvAff.
 From TM Require Import Master.Publish Master.PublishP Master.Restore Master.RestoreP Master.RestoreSched Master.RestoreSchedP.
+From TM Require Import Master.RestoreAll Master.RestoreAllP Master.RestoreDupP.
 From TM Require Import Base.ShapeCanon.
 Import ListNotations.
 Open Scope Z_scope.
@@ -117,6 +134,225 @@ Example C11_nonvacuous :
   restore_action (Some 100) true ex_reb = RPutFresh None /\
   restore_server 9 None true [ex_once] = ([], [WDel 9 4; WFinished 4; WUnsched 4]).
 Proof. vm_compute. repeat split. Qed.
+
+(** the same when the instance may already name a server - it was restored under an earlier server of the same load:
+    Python's Server.restore does not look at app.server ([clear_server]: the identity when it names none, so
+    C11_reload_one_server is the special case) *)
+Theorem C11_reload_one_server_again s presence pre n post c x0 c1 :
+  NoDup (map sn_app (pre ++ n :: post)) ->
+  let cpre := restore_nodes s presence true c pre in
+  get_app (sn_app n) (c_apps cpre) = Some x0 ->
+  sched_verbatim presence n = true ->
+  srv_restore (clear_server cpre (sn_app n)) s (sn_app n) (Some (sn_expires n)) = (c1, true) ->
+  exists x, get_app (sn_app n) (c_apps (restore_nodes s presence true c (pre ++ n :: post))) = Some x /\
+            a_server x = Some s /\ a_expiry x = Some (sn_expires n) /\
+            a_identity x = match sn_identity n with Some i => Some i | None => a_identity x0 end.
+Proof. exact (restore_nodes_restore s presence pre n post c x0 c1). Qed.
+Print Assumptions C11_reload_one_server_again.
+
+(** * the composition over Loader.servers (Master/RestoreAll.v [restore_all] = the first loop of restore_placements,
+    [restore_placements] = both loops)
+    (a) a node healthy at its turn whose instance has no node under another server: on its server with the recorded
+    expiry and identity after ALL servers, and the only server [integrity] lists for it; (b) an instance without a node
+    is as before and listed nowhere; (c) [integrity] has one entry per server and lists exactly the restored nodes *)
+Theorem C11_reload_all_servers : forall c servers,
+  let r := restore_all true c servers in
+  (forall spre sr spost pre n post x0 c1,
+     servers = spre ++ sr :: spost ->
+     sr_nodes sr = pre ++ n :: post ->
+     NoDup (map sn_app (sr_nodes sr)) ->
+     (forall sr', In sr' (spre ++ spost) -> ~ In (sn_app n) (map sn_app (sr_nodes sr'))) ->
+     let cpre := restore_nodes (sr_name sr) (sr_presence sr) true (fst (restore_all true c spre)) pre in
+     get_app (sn_app n) (c_apps cpre) = Some x0 ->
+     sched_verbatim (sr_presence sr) n = true ->
+     srv_restore (clear_server cpre (sn_app n)) (sr_name sr) (sn_app n) (Some (sn_expires n)) = (c1, true) ->
+     (exists x, get_app (sn_app n) (c_apps (fst r)) = Some x /\
+                a_server x = Some (sr_name sr) /\ a_expiry x = Some (sn_expires n) /\
+                a_identity x = match sn_identity n with Some i => Some i | None => a_identity x0 end) /\
+     restored_on (snd r) (sn_app n) = [sr_name sr] /\
+     get_app (sn_app n) (c_apps c) = Some x0) /\
+  (forall b, (forall sr, In sr servers -> ~ In b (map sn_app (sr_nodes sr))) ->
+     get_app b (c_apps (fst r)) = get_app b (c_apps c) /\ restored_on (snd r) b = []) /\
+  (map fst (snd r) = map sr_name servers /\
+   forall a s, In s (restored_on (snd r) a) <->
+     exists spre sr spost pre n post,
+       servers = spre ++ sr :: spost /\ sr_nodes sr = pre ++ n :: post /\ s = sr_name sr /\ a = sn_app n /\
+       restored (snd (restore_node s (sr_presence sr) true
+                        (restore_nodes s (sr_presence sr) true (fst (restore_all true c spre)) pre) n)) = true).
+Proof. exact (reload_all_servers). Qed.
+Print Assumptions C11_reload_all_servers.
+
+(** (a) needs only that no LATER server records the instance *)
+Theorem C11_reload_all_servers_later : forall c spre sr spost pre n post x0 c1,
+  sr_nodes sr = pre ++ n :: post ->
+  NoDup (map sn_app (sr_nodes sr)) ->
+  (forall sr', In sr' spost -> ~ In (sn_app n) (map sn_app (sr_nodes sr'))) ->
+  let cpre := restore_nodes (sr_name sr) (sr_presence sr) true (fst (restore_all true c spre)) pre in
+  get_app (sn_app n) (c_apps cpre) = Some x0 ->
+  sched_verbatim (sr_presence sr) n = true ->
+  srv_restore (clear_server cpre (sn_app n)) (sr_name sr) (sn_app n) (Some (sn_expires n)) = (c1, true) ->
+  let r := restore_all true c (spre ++ sr :: spost) in
+  (exists x, get_app (sn_app n) (c_apps (fst r)) = Some x /\
+             a_server x = Some (sr_name sr) /\ a_expiry x = Some (sn_expires n) /\
+             a_identity x = match sn_identity n with Some i => Some i | None => a_identity x0 end) /\
+  In (sr_name sr) (restored_on (snd r) (sn_app n)).
+Proof. exact (reload_all_servers_later). Qed.
+Print Assumptions C11_reload_all_servers_later.
+
+(** restore_all is the fold of restore_nodes; the collected names are a companion of restore_nodes *)
+Theorem C11_restore_all_is_fold ri servers : forall c,
+  fst (restore_all ri c servers) =
+  fold_left (fun acc sr => restore_nodes (sr_name sr) (sr_presence sr) ri acc (sr_nodes sr)) servers c.
+Proof. exact (restore_all_is_fold ri servers). Qed.
+Print Assumptions C11_restore_all_is_fold.
+
+Theorem C11_restored_names_companion : forall s p ri ns c,
+  fst (restore_nodes_names s p ri c ns) = restore_nodes s p ri c ns /\
+  forall a, In a (snd (restore_nodes_names s p ri c ns)) <->
+            exists pre n post, ns = pre ++ n :: post /\ a = sn_app n /\
+                               restored (snd (restore_node s p ri (restore_nodes s p ri c pre) n)) = true.
+Proof. exact (restored_names_companion). Qed.
+Print Assumptions C11_restored_names_companion.
+
+(** through the duplicate pass as well (in-memory Server.remove and the deletions) *)
+Theorem C11_restore_placements_healthy c spre sr spost pre n post x0 c1 :
+  sr_nodes sr = pre ++ n :: post ->
+  NoDup (map sn_app (sr_nodes sr)) ->
+  (forall sr', In sr' (spre ++ spost) -> ~ In (sn_app n) (map sn_app (sr_nodes sr'))) ->
+  let s := sr_name sr in
+  let p := sr_presence sr in
+  let cpre := restore_nodes s p true (fst (restore_all true c spre)) pre in
+  get_app (sn_app n) (c_apps cpre) = Some x0 ->
+  sched_verbatim p n = true ->
+  srv_restore (clear_server cpre (sn_app n)) s (sn_app n) (Some (sn_expires n)) = (c1, true) ->
+  forall cf rs ws, restore_placements true c (spre ++ sr :: spost) = (cf, rs, ws) ->
+  (exists x, get_app (sn_app n) (c_apps cf) = Some x /\
+             a_server x = Some s /\ a_expiry x = Some (sn_expires n) /\
+             a_identity x = match sn_identity n with Some i => Some i | None => a_identity x0 end) /\
+  restored_on rs (sn_app n) = [s] /\
+  (forall s', ~ In (WDel s' (sn_app n)) ws).
+Proof. exact (restore_placements_healthy_eq c spre sr spost pre n post x0 c1). Qed.
+Print Assumptions C11_restore_placements_healthy.
+
+Theorem C11_restore_placements_nothing_unrecorded ri c servers b :
+  (forall sr, In sr servers -> ~ In b (map sn_app (sr_nodes sr))) ->
+  forall cf rs ws, restore_placements ri c servers = (cf, rs, ws) ->
+  get_app b (c_apps cf) = get_app b (c_apps c) /\ restored_on rs b = [] /\ (forall s, ~ In (WDel s b) ws).
+Proof. exact (restore_placements_frame_eq ri c servers b). Qed.
+Print Assumptions C11_restore_placements_nothing_unrecorded.
+
+(** C11_duplicates_dropped applied to what the loop collected *)
+Theorem C11_reload_all_then_dedup : forall ri c servers st,
+  let restored := snd (restore_all ri c servers) in
+  (forall s a, has st s a = true -> exists l, In (s, l) restored /\ zmem a l = true) ->
+  let final := apply_writes st (dedup_writes restored) in
+  no_double final /\
+  (forall s a, restored_on restored a = [s] -> lookup final s a = lookup st s a).
+Proof. exact (reload_all_then_dedup). Qed.
+Print Assumptions C11_reload_all_then_dedup.
+
+(** the remove_all() that opens every restore_placement changes nothing during load_model (server names are dict keys;
+    load_servers has just created the servers empty) *)
+Theorem C11_remove_all_idle ri servers : forall c,
+  NoDup (map sr_name servers) -> (forall sr, In sr servers -> srv_empty c (sr_name sr)) ->
+  restore_all_ra ri c servers = restore_all ri c servers.
+Proof. exact (restore_all_ra_eq ri servers). Qed.
+Print Assumptions C11_remove_all_idle.
+
+(** * part (c): an instance recorded under TWO servers, restored under both at its turns (RRestore or RPutFresh):
+    [integrity] lists both; after restore_placements it names no server (expiry cleared, marked evicted), neither server
+    lists it - no server does that did not list it before -, and both of its nodes are deleted.
+    Side conditions: node names under one server distinct (children of one ZooKeeper node), the two server names differ
+    (dict keys), no server lists an instance twice at the start (Server.apps is a dict; Sched/InvAcct.v ac_nodup) *)
+Theorem C11_duplicate_removed_from_both ri c s1 srA s2 srB s3 preA nA postA preB nB postB :
+  let A := sr_name srA in
+  let B := sr_name srB in
+  let a := sn_app nA in
+  sr_nodes srA = preA ++ nA :: postA -> sr_nodes srB = preB ++ nB :: postB -> sn_app nB = a ->
+  NoDup (map sn_app (sr_nodes srA)) -> NoDup (map sn_app (sr_nodes srB)) ->
+  A <> B ->
+  (forall sr, In sr (s1 ++ s2 ++ s3) -> ~ In a (map sn_app (sr_nodes sr))) ->
+  apps_nodup c ->
+  let cA := restore_nodes A (sr_presence srA) ri (fst (restore_all ri c s1)) preA in
+  let cB := restore_nodes B (sr_presence srB) ri (fst (restore_all ri c (s1 ++ srA :: s2))) preB in
+  restored (snd (restore_node A (sr_presence srA) ri cA nA)) = true ->
+  restored (snd (restore_node B (sr_presence srB) ri cB nB)) = true ->
+  forall cf rs ws, restore_placements ri c (s1 ++ srA :: s2 ++ srB :: s3) = (cf, rs, ws) ->
+  restored_on rs a = [A; B] /\
+  (exists x, get_app a (c_apps cf) = Some x /\ a_server x = None /\ a_expiry x = None /\ a_evicted x = true) /\
+  ~ listed cf A a /\ ~ listed cf B a /\
+  (forall s, listed cf s a -> listed c s a) /\
+  In (WDel A a) ws /\ In (WDel B a) ws.
+Proof. exact (restore_placements_duplicate ri c s1 srA s2 srB s3 preA nA postA preB nB postB). Qed.
+Print Assumptions C11_duplicate_removed_from_both.
+
+(** the same for two healthy nodes (the hypothesis of C11_reload_one_server_again at both turns) *)
+Theorem C11_duplicate_healthy_removed_from_both c s1 srA s2 srB s3 preA nA postA preB nB postB xA cA1 xB cB1 :
+  let A := sr_name srA in
+  let B := sr_name srB in
+  let a := sn_app nA in
+  sr_nodes srA = preA ++ nA :: postA -> sr_nodes srB = preB ++ nB :: postB -> sn_app nB = a ->
+  NoDup (map sn_app (sr_nodes srA)) -> NoDup (map sn_app (sr_nodes srB)) ->
+  A <> B ->
+  (forall sr, In sr (s1 ++ s2 ++ s3) -> ~ In a (map sn_app (sr_nodes sr))) ->
+  apps_nodup c ->
+  let cA := restore_nodes A (sr_presence srA) true (fst (restore_all true c s1)) preA in
+  let cB := restore_nodes B (sr_presence srB) true (fst (restore_all true c (s1 ++ srA :: s2))) preB in
+  get_app a (c_apps cA) = Some xA -> sched_verbatim (sr_presence srA) nA = true ->
+  srv_restore (clear_server cA a) A a (Some (sn_expires nA)) = (cA1, true) ->
+  get_app a (c_apps cB) = Some xB -> sched_verbatim (sr_presence srB) nB = true ->
+  srv_restore (clear_server cB a) B a (Some (sn_expires nB)) = (cB1, true) ->
+  forall cf rs ws, restore_placements true c (s1 ++ srA :: s2 ++ srB :: s3) = (cf, rs, ws) ->
+  restored_on rs a = [A; B] /\
+  (exists x, get_app a (c_apps cf) = Some x /\ a_server x = None /\ a_expiry x = None /\ a_evicted x = true) /\
+  ~ listed cf A a /\ ~ listed cf B a /\
+  (forall s, listed cf s a -> listed c s a) /\
+  In (WDel A a) ws /\ In (WDel B a) ws.
+Proof. exact (restore_placements_duplicate_healthy c s1 srA s2 srB s3 preA nA postA preB nB postB xA cA1 xB cB1). Qed.
+Print Assumptions C11_duplicate_healthy_removed_from_both.
+
+(** accounting after restore_placements, however many instances were recorded under several servers: every server's
+    free capacity is its capacity minus the demands of the instances it still lists (so nothing stays deducted for an
+    instance removed by the duplicate pass), it is non-negative, and the server-level affinity counters are the counts
+    over the instances it still lists.  Hypotheses: the invariants of every reachable cell (C01_accounting, C04) and no
+    recorded instance is schedule_once (see Master/RestoreDupP.v: with a schedule-once instance recorded under three
+    servers and refused by the third, Python itself leaves the first server's books wrong and then fails an assertion) *)
+Theorem C11_reload_accounting ri c servers :
+  Acct c -> Aff c -> once_free_on (recorded servers) c ->
+  forall cf rs ws, restore_placements ri c servers = (cf, rs, ws) ->
+  forall s sv, get_srv s (c_servers cf) = Some sv ->
+    vadd (s_free sv) (total (c_apps cf) (c_dim cf) (s_apps sv)) = s_cap sv /\
+    nonneg (s_free sv) /\
+    forall aff, cget aff (s_counters sv) = count_aff (c_apps cf) aff (s_apps sv).
+Proof. exact (restore_placements_accounting ri c servers). Qed.
+Print Assumptions C11_reload_accounting.
+
+(** the two-server data of Master/RestoreAllP.v (servers 1000, 1001; instance 2 recorded under both): after the first
+    loop both servers list instance 2 and have its demand deducted; the duplicate pass deletes both nodes and leaves
+    servers and buckets exactly as the same load without the two nodes does *)
+Example C11_duplicate_on_data :
+  let c0 := fst (restore_all true ax_cell [ax_s0]) in
+  let r := restore_all true ax_cell [ax_s0; ax_s1] in
+  let '(cf, rs, ws) := restore_placements true ax_cell [ax_s0; ax_s1] in
+  let '(cf', _, ws') := restore_placements true ax_cell [mkSR 1000 (Some 5) [mkSN 1 (Some 2) 777 9];
+                                                         mkSR 1001 (Some 5) [mkSN 3 None 555 9]] in
+  snd (restore_node 1000 (Some 5) true (restore_nodes 1000 (Some 5) true ax_cell [mkSN 1 (Some 2) 777 9])
+                    (mkSN 2 None 888 9)) = RRestore 888 None /\
+  ax_view c0 2 = Some (Some 1000, Some 888, None, false) /\
+  snd (restore_node 1001 (Some 5) true c0 (mkSN 2 None 999 9)) = RRestore 999 None /\
+  ax_view (fst r) 2 = Some (Some 1001, Some 999, None, false) /\
+  ax_on (fst r) 1000 = Some ([1; 2], [100; 100; 100], [(3000, 2)]) /\
+  ax_on (fst r) 1001 = Some ([2; 3], [100; 100; 100], [(3000, 2)]) /\
+  map (fun b => (b_name b, b_free b, b_counters b)) (c_buckets (fst r)) = [(2000, [100; 100; 100], [(3000, 4)])] /\
+  rs = snd r /\ restored_on rs 2 = [1000; 1001] /\
+  ws = [WDel 1000 2; WDel 1001 2] /\
+  ax_view cf 2 = Some (None, None, None, true) /\
+  ax_on cf 1000 = Some ([1], [200; 200; 200], [(3000, 1)]) /\
+  ax_on cf 1001 = Some ([3], [200; 200; 200], [(3000, 1)]) /\
+  map (fun b => (b_name b, b_free b, b_counters b)) (c_buckets cf) = [(2000, [200; 200; 200], [(3000, 2)])] /\
+  c_servers cf = c_servers cf' /\ c_buckets cf = c_buckets cf' /\ ws' = [] /\
+  ax_view cf 1 = ax_view cf' 1 /\ ax_view cf 3 = ax_view cf' 3.
+Proof. exact ax_duplicate_on_data. Qed.
 
 (** the functions named by this property's anchors still have the statement skeleton the model was written from
     (re-extracted from the Python AST on every run, harness/tables_shape.py + harness/shape_pins.json; kept last so that
